@@ -17,6 +17,6 @@ Your task: make ONE small, realistic source change (the kind of slip a maintaine
 
 Deliver, in the directory /tmp/seed_out_{pid}_{k}/ (create it):
 1. `patch.diff` — output of `git -C {wt} diff` (only your source change; no build products).
-2. `demo.py` — a small self-contained program that exits 0 and prints PASS on the UNCHANGED tree and exits 1 printing FAIL (with the offending input and observed/expected values) on the changed tree, when run as `cd <tree> && PYTHONPATH=<tree> /venv/bin/python /tmp/seed_out_{pid}_{k}/demo.py`. Verify both directions yourself (use `git -C {wt} stash` / `stash pop`, rebuilding if a .pyx changed).
+2. `demo.py` — a small self-contained program that exits 0 and prints PASS on the UNCHANGED tree and exits 1 printing FAIL (with the offending input and observed/expected values) on the changed tree, when run as `cd <tree> && PYTHONPATH=<tree> /venv/bin/python /tmp/seed_out_{pid}_{k}/demo.py`. Verify both directions yourself (NEVER use `git stash`: the stash is shared with other worktrees of this repository; use `git -C {wt} diff > /tmp/seed_out_{pid}_{k}/p.diff; git -C {wt} apply -R /tmp/seed_out_{pid}_{k}/p.diff; ...; git -C {wt} apply /tmp/seed_out_{pid}_{k}/p.diff`, rebuilding if a .pyx changed).
 3. `meta.json` — {{"property": "{pid}", "summary": "...what was changed...", "needs": "...what is needed for the breakage to manifest...", "files": [...], "tests": "N passed, M failed with the change"}}.
 Confirm by actually running the full test suite with your change applied. Leave the worktree WITH your change applied and built. Report briefly what you changed and why the tests cannot see it.""")
